@@ -42,8 +42,10 @@ Inductive name :=
 | NSst (x : sname)                   (* sst/<setsum>.sst *)
 | NTmp (x : sname)                   (* tmp/<setsum>.sst : output of a memtable flush *)
 | NTmpLog (n : N)                    (* tmp/log.<n>.sst : output of a log replay *)
-| NCompDir (d : list sname)          (* compaction/<sum of inputs>/ *)
-| NComp (d : list sname) (i : nat)   (* compaction/<sum of inputs>/<i>.sst *)
+| NCompDir (d : sname)               (* compaction/<sum of the inputs' setsums>/ : named by ALL the
+                                        entries of the inputs (a setsum is a sum over entries, so two
+                                        input sets holding the same entries share the directory) *)
+| NComp (d : sname) (i : nat)        (* compaction/<sum of inputs>/<i>.sst *)
 | NTrashLog (n : N)                  (* trash/log.<n> *)
 | NTrashSst (x : sname).             (* trash/<setsum>.sst *)
 
@@ -75,8 +77,8 @@ Definition name_eqb (a b : name) : bool :=
   | NSst x, NSst y => sname_eqb x y
   | NTmp x, NTmp y => sname_eqb x y
   | NTmpLog x, NTmpLog y => x =? y
-  | NCompDir x, NCompDir y => snames_eqb x y
-  | NComp x i, NComp y j => snames_eqb x y && Nat.eqb i j
+  | NCompDir x, NCompDir y => sname_eqb x y
+  | NComp x i, NComp y j => sname_eqb x y && Nat.eqb i j
   | NTrashLog x, NTrashLog y => x =? y
   | NTrashSst x, NTrashSst y => sname_eqb x y
   | _, _ => false
@@ -111,9 +113,9 @@ Definition exists_name (n : name) (s : fs) : bool :=
   match lookup n s with Some _ => true | None => false end.
 
 (* the files inside compaction/<d>/ *)
-Definition in_comp_dir (d : list sname) (n : name) : bool :=
-  match n with NComp d' _ => snames_eqb d d' | _ => false end.
-Definition comp_files (d : list sname) (s : fs) : list name :=
+Definition in_comp_dir (d : sname) (n : name) : bool :=
+  match n with NComp d' _ => sname_eqb d d' | _ => false end.
+Definition comp_files (d : sname) (s : fs) : list name :=
   map fst (filter (fun p => in_comp_dir d (fst p)) s).
 
 (* ------------------------------------------------------------------ system calls *)
@@ -331,7 +333,7 @@ Definition flush_prog (v : vstate) (s : fs) : prog * bool :=
    edit; perform_compaction still holds a snapshot of the old version (for its split hints) until
    it returns, so there it happens last. *)
 Definition compact_prog (gc : bool) (ins outs : list sname) (s : fs) : prog :=
-  let d := ins in
+  let d := sort_entries (concat ins) in
   let eo := enumerate 0 outs in
   let retire := map (fun x => (CRename (NSst x) (NTrashSst x), Retire)) (filter (fun x => negb (mem_sname x outs)) ins) in
   let cleanup := must (map (fun ix => CUnlink (NComp d (fst ix))) eo ++ [CRmdir (NCompDir d)]) in
